@@ -3335,9 +3335,12 @@ def rule_every_function_group_gets_its_file(ctx, rep: Report, rid="T16"):
     fn = prog.method("MatlabWrapper", "wrap_methods")
     params = func_params(fn)
     loc = f"{ci.mod.rel}:{fn.lineno}"
-    appends = [c for c in walk_no_nested(fn) if isinstance(c, ast.Call) and unparse(c.func) == "self.content.append"]
+    # the function's file: `<somewhere>.append((folder, [(name + '.m', text)]))` - on self.content, or on a list handed in by the caller
+    appends = [c for c in walk_no_nested(fn) if isinstance(c, ast.Call) and isinstance(c.func, ast.Attribute) and c.func.attr == "append" and c.args
+               and any(isinstance(x, ast.Constant) and x.value == ".m" for x in ast.walk(c.args[0]))
+               and (unparse(c.func.value) == "self.content" or (isinstance(c.func.value, ast.Name) and c.func.value.id in params))]
     if len(appends) != 1:
-        raise AnalysisError(f"MatlabWrapper.wrap_methods: {len(appends)} appends to self.content, 1 expected (the free function's file)")
+        raise AnalysisError(f"MatlabWrapper.wrap_methods: {len(appends)} appends of a function file, 1 expected")
     call = appends[0]
     loop = enclosing(call, ast.For)
     if loop is None or not isinstance(loop.target, ast.Name):
@@ -3373,3 +3376,72 @@ def rule_every_function_group_gets_its_file(ctx, rep: Report, rid="T16"):
     rep.add(rid, "wrap_methods:the groups are formed from the whole list handed in", whole,
             f"the loop runs over `{unparse(loop.iter)[:60]}`, grouped from `{unparse(src)[:60] if src is not None else '?'}`: a filtered list leaves declared functions without a file",
             loc, nontrivial=False)
+
+
+def rule_serialize_pair_complete(ctx, rep: Report, rid="T17"):
+    """A class that gets `string_serialize` / `saveobj` also gets `string_deserialize` / `loadobj` (and the two routines behind
+    them): the static pair is emitted under the flag the serialize method set and the serialization option alone - no other
+    condition (a class without static methods, an early return from the static block) stands in front of it."""
+    from .rules_ids import inventory
+    ci, prog = mw(ctx)
+    sites = inventory(ctx)
+
+    def role_name(s):
+        return s.role.elts[2].value if isinstance(s.role, ast.Tuple) and len(s.role.elts) == 4 and isinstance(s.role.elts[2], ast.Constant) else None
+    ser = [s for s in sites if role_name(s) == "string_serialize"]
+    des = [s for s in sites if role_name(s) == "string_deserialize"]
+    if len(ser) != 1 or len(des) != 1:
+        raise AnalysisError(f"{rep.prop}/{rid}: {len(ser)} string_serialize and {len(des)} string_deserialize id allocation sites (1 each expected)")
+    d = des[0]
+    gs = guards_of(d.call, d.fn, include_exits=True)
+    params = set(func_params(d.fn))
+    extra = []
+    for t, pol in gs:
+        e = ast.parse(t, mode="eval").body
+        atoms = e.values if isinstance(e, ast.BoolOp) and isinstance(e.op, ast.And) and pol else [e]
+        for a in atoms:
+            txt = unparse(a)
+            if pol and ((isinstance(a, ast.Name) and a.id in params) or txt == "self.use_boost_serialization"):
+                continue
+            extra.append(f"`{t}` is {pol}")
+            break
+    rep.add(rid, "serialization:string_deserialize / loadobj emitted for every class that got string_serialize / saveobj", not extra,
+            f"the static pair also depends on {extra}: a serializable class for which this fails can be saved but not loaded (no loadobj, no deserialize routine)",
+            f"{ci.mod.rel}:{d.call.lineno}")
+
+
+def rule_containers_registered_before_they_are_judged(ctx, rep: Report, rid="T18"):
+    """wrap_namespace hands `self.content` lists that it goes on filling (the entries of an inner namespace are appended to the
+    list after - or, through a callee, long after - the list was registered).  A registration that is made only if the list is
+    non-empty *at that moment* drops everything appended later: a namespace that holds free functions only never gets its
+    +package folder.  For every `self.content.append(<... L ...>)` guarded by a test on the local list L, nothing may be
+    appended to L (directly, or by a method that receives L) after the registration."""
+    ci, prog = mw(ctx)
+    fn = prog.method("MatlabWrapper", "wrap_namespace")
+    la = local_assignments(fn)
+    lists = {n_ for n_, sts in la.items() if any(isinstance(st, ast.Assign) and isinstance(st.value, ast.List) for st in sts)}
+    n = 0
+    for c in walk_no_nested(fn):
+        if not (isinstance(c, ast.Call) and unparse(c.func) == "self.content.append" and c.args):
+            continue
+        used = [x.id for x in ast.walk(c.args[0]) if isinstance(x, ast.Name) and x.id in lists]
+        for L in used:
+            n += 1
+            tests = [t for t, pol in guards_of(c, fn, include_exits=True)
+                     if any(isinstance(y, ast.Name) and y.id == L for y in ast.walk(ast.parse(t, mode="eval").body))]
+            later = []
+            for x in walk_no_nested(fn):
+                if getattr(x, "lineno", 0) <= c.lineno or not isinstance(x, ast.Call):
+                    continue
+                if isinstance(x.func, ast.Attribute) and x.func.attr in ("append", "extend", "insert") and isinstance(x.func.value, ast.Name) and x.func.value.id == L:
+                    later.append(f"line {x.lineno}: {L}.{x.func.attr}(...)")
+                elif isinstance(x.func, ast.Attribute) and unparse(x.func.value) == "self" and any(
+                        isinstance(y, ast.Name) and y.id == L for a in list(x.args) + [k.value for k in x.keywords] for y in ast.walk(a)):
+                    later.append(f"line {x.lineno}: {L} handed to self.{x.func.attr}(...)")
+            ok = not (tests and later)
+            rep.add(rid, f"wrap_namespace:list `{L}` is registered before it is judged empty", ok,
+                    f"the registration at line {c.lineno} is made only if {tests}, but the list is still being filled afterwards ({later[:2]}): what is appended "
+                    f"to a list that was empty at that moment is never written (the files of a namespace that holds free functions only)",
+                    f"{ci.mod.rel}:{c.lineno}", nontrivial=bool(tests))
+    if n < 1:
+        raise AnalysisError(f"{rep.prop}/{rid}: no list registered in self.content by wrap_namespace")
